@@ -24,6 +24,10 @@ Static clauses decided (necessary conditions of C07):
          comparison dbvals_equal, which exists to compare what the *database returned* with what the session remembers; in
          Entity._save_created_ every attribute that has a value contributes to the INSERT.
 """
+# for Json / array attributes "the value the program saw after the flush" includes its in-place changes: that they are tracked and written (C28) is a
+# necessary condition of C07 for those attribute types
+INCLUDES = ('C28',)
+
 NOT_DECIDED = "value-level round trips per backend and type (needs execution against each engine)"
 
 SCOPE = ('pony/orm/dbapiprovider.py', 'pony/orm/dbproviders/', 'pony/converting.py', 'pony/utils/utils.py')
